@@ -67,13 +67,14 @@ FLAVOURS = {
 POSITIONS = ['first', 'middle', 'last']
 ON_ERROR = ['return', 'raise']
 VERBOSE = [0, 3]
+MODES = ['native', 'pytest']
 IMPORT_KINDS = ['good', 'raises', 'syntax', 'missing', 'packaged', 'packaged_index0', 'good_twice', 'rotates_syspath',
                 'root_first_on_syspath', 'root_inside_syspath', 'root_first_on_syspath_index0']
 
 
 def required_cells(tier):
     return (['outcome:' + k for k in OUTCOMES] + ['outcome:import_failure'] + ['flavour:' + f for f in FLAVOURS] +
-            ['pos:' + p for p in POSITIONS] + ['on_error:return', 'on_error:raise', 'verbose:0', 'verbose:3'] +
+            ['pos:' + p for p in POSITIONS] + ['on_error:return', 'on_error:raise', 'verbose:0', 'verbose:3', 'mode:native', 'mode:pytest'] +
             ['import:' + k for k in IMPORT_KINDS] + ['loops-created-and-closed', 'result:returned', 'result:raised'] +
             (['dev-pass'] if tier == 'thorough' else []))
 
@@ -142,15 +143,16 @@ def monitored(ctx, what, fn, case, describe, path_as_multiset=False):
     return result, ok
 
 
-def check_doctest(ctx, outcome, flavour, pos, on_error, verbose):
+def check_doctest(ctx, outcome, flavour, pos, on_error, verbose, mode='native'):
     from xdoctest import doctest_example
     doc = build(outcome, flavour, pos)
     case = {'kind': 'doctest', 'outcome': outcome, 'flavour': flavour, 'pos': pos, 'on_error': on_error,
-            'verbose': verbose, 'doc': doc}
+            'verbose': verbose, 'doc': doc, 'mode': mode}
     ctx.evaluation()
-    ctx.nontrivial((doc, on_error, verbose))
+    ctx.nontrivial((doc, on_error, verbose, mode))
     dt = doctest_example.DocTest(doc)
-    dt.mode = 'native'
+    # 'native' is what the runner sets; 'pytest' is the default of a DocTest (plugin items, direct API use)
+    dt.mode = mode
     sink = io.StringIO()
 
     def call():
@@ -160,7 +162,7 @@ def check_doctest(ctx, outcome, flavour, pos, on_error, verbose):
     real = sys.stdout
     sys.stdout = sink if verbose else real
     try:
-        result, ok = monitored(ctx, 'DocTest.run(on_error=%r, verbose=%d)' % (on_error, verbose), call, case,
+        result, ok = monitored(ctx, 'DocTest.run(on_error=%r, verbose=%d) in mode %r' % (on_error, verbose, mode), call, case,
                                '--- doctest (%s / %s / %s) ---\n%s' % (outcome, flavour, pos, doc))
     finally:
         sys.stdout = real
@@ -170,6 +172,7 @@ def check_doctest(ctx, outcome, flavour, pos, on_error, verbose):
         ctx.cell('pos:' + pos)
         ctx.cell('on_error:' + on_error)
         ctx.cell('verbose:%d' % verbose)
+        ctx.cell('mode:' + mode)
         ctx.cell('result:' + result[0])
         if ctx.shard == 0 and outcome in ('coro_sysexit', 'kbint', 'mismatch'):
             ctx.sample({'doctest': doc, 'on_error': on_error, 'verbose': verbose,
@@ -259,7 +262,7 @@ def check_imports(ctx):
 
 
 def all_combos():
-    return list(itertools.product(sorted(OUTCOMES), sorted(FLAVOURS), POSITIONS, ON_ERROR, VERBOSE))
+    return list(itertools.product(sorted(OUTCOMES), sorted(FLAVOURS), POSITIONS, ON_ERROR, VERBOSE, MODES))
 
 
 def run_shard(ctx):
@@ -312,12 +315,12 @@ def dev_pass_main(tmp):
     sys.unraisablehook = hook
     runs = loops = unclosed = 0
     leaks = []
-    for outcome, flavour, pos, on_error, verbose in all_combos():
+    for outcome, flavour, pos, on_error, verbose, mode in all_combos():
         if verbose:
             continue
         doc = build(outcome, flavour, pos)
         dt = doctest_example.DocTest(doc)
-        dt.mode = 'native'
+        dt.mode = mode
         before = monitors.ProcState()
         real = sys.stdout
         with monitors.LoopTracker() as lt:
@@ -331,7 +334,7 @@ def dev_pass_main(tmp):
         sys.path[:] = before.path
         warnings.filters[:] = before.filters
         if d:
-            leaks.append([outcome, flavour, pos, on_error, [x[0] for x in d]])
+            leaks.append([outcome, flavour, pos, on_error, mode, [x[0] for x in d]])
         runs += 1
         loops += len(lt.loops)
         unclosed += len(lt.unclosed())
@@ -345,7 +348,8 @@ def dev_pass_main(tmp):
 def replay(case, ctx):
     warnings.simplefilter('ignore')
     if case['kind'] == 'doctest':
-        check_doctest(ctx, case['outcome'], case['flavour'], case['pos'], case['on_error'], case['verbose'])
+        check_doctest(ctx, case['outcome'], case['flavour'], case['pos'], case['on_error'], case['verbose'],
+                      case.get('mode', 'native'))
     elif case['kind'] == 'devpass':
         dev_pass_from_parent(ctx)
     else:
